@@ -20,6 +20,7 @@ import Upnp.Lemmas.C14DevBridge
 import Upnp.Props.C05
 import Upnp.Lemmas.C14Call06
 import Upnp.Lemmas.C14Agree
+import Upnp.Lemmas.C14Fault07
 import Upnp.Props.C06
 import Upnp.Gen.C08Types
 namespace Upnp.C14
@@ -473,5 +474,27 @@ theorem call_request_c06 (O : C06.Oracles) (a : C06.ActionDecl) (kw : C06.Kwargs
   exact c06_request_reaches_handler O a kw req _ _
     (fun name st args hn hargs => C06.body_reads_back name st args hn hargs)
     hreq fs stype sacts sact args ha hst hagree hxn hxa hbr h1 h2 h3 h4 hfind hnd hok
+
+/-! ### the call half composed with C07 (response decoding): handler-raised action errors -/
+
+/-- **`handler_error_propagates` with C07's `decode` as the client.**  Whenever the request reaches
+    the handler and the handler raises `UpnpActionError(error_code=c)`, `c ≠ 0` (within CPython's
+    4300-digit limit), the C14 server model answers status 500 with `faultDoc c`, and C07's `decode`
+    — status dispatch, `_parse_fault` with C08's `int()` — given any XML oracle that reads the served
+    text as the served tree (`hX`; text ↔ tree is outside every model), raises
+    `UpnpActionResponseError(error_code=c, error_desc="Action Failed", status=500)`: the same UPnP
+    code reaches the caller. -/
+theorem handler_error_propagates_c07 (O : C06.Oracles) (X : C07.XmlOracle) (a : C06.ActionDecl) (text : Str)
+    (fs : Facts) (stype : Str) (acts : List SAct) (h : Handler) (r : Req) (n : Str) (kw : PyDict Str Val) (c : Nat)
+    (hi : handlerInput fs acts r = some (n, kw)) (he : h n kw = .err (some c)) (hc : c ≠ 0)
+    (hs : (C08.natDigits c).length ≤ C08.maxStrDigits)
+    (hX : X (C07.stripPad text) = some (some (z06 (faultDoc c)))) :
+    serverHandle fs stype acts h r = .resp 500 (faultDoc c)
+    ∧ C07.decode O X a 500 (some text)
+        = .exc (.actionResponseError (some (Int.ofNat c)) (some "Action Failed".toList) 500) := by
+  obtain ⟨act, _, _, _, hsrv⟩ := serverHandle_reached (stype := stype) (h := h) hi
+  refine ⟨by rw [hsrv, he]; simp [renderResult, hc], ?_⟩
+  have h500 : ((500 : Int) != 200) = true := by decide
+  simp only [C07.decode, h500, ↓reduceIte, hX, z06_faultDoc, c07_parseFault_faultDoc c hs 500]
 
 end Upnp.C14
